@@ -10,6 +10,11 @@ MIXED_ALPHABETS = [
     ["q.1", "qx1", "q11", "q"],
     ["mq", "MQ", "Mq", "d"],
 ]
+# names that contain ONE of the characters the separators are made of (':' '<' '>'), as in MAD-X style "mq:1"
+SEPCHAR_ALPHABETS = [
+    ["mq:1", "mq:2", "d", "mq"],
+    ["b<1", "b>x", "b", "c:d"],
+]
 ALPHABETS = [
     ["a", "b", "ab"],
     ["ip", "mq", "mqx", "d"],
@@ -18,6 +23,11 @@ ALPHABETS = [
     ["s", "e", "se", "es", "ses"],
 ]
 FLOATS = [0.0, 0.5, -1.5, 2.0, 3.25, -2.0, 1.0, 7.5, -0.25, 10.0]
+
+
+def re_escape(x):
+    import re
+    return re.escape(x)
 
 
 def gen_table(rng, cfg, alpha, with_scalars=True):
@@ -67,6 +77,7 @@ class TGen:
         self.rng, self.cfg = rng, cfg
         self.alpha = cfg["alphabet"]
         self.mixed = cfg["alphabet"] in MIXED_ALPHABETS
+        self.sepchars = cfg["alphabet"] in SEPCHAR_ALPHABETS
         self.models = [MTable([c[0] for c in t["cols"]], {c[0]: c[2] for c in t["cols"]}, t["index"], dict(t["scalars"])) for t in tables]
         self.kinds = [{c[0]: c[1] for c in t["cols"]} for t in tables]
         self.newcol = 0
@@ -82,7 +93,7 @@ class TGen:
         n = m.n()
         r = rng.random()
         if r < 0.12 and n:
-            return rng.randrange(n)
+            return rng.randrange(n) if rng.random() < 0.7 else -rng.randint(1, n)
         name = self.name_maybe_absent()
         occ = len(m.occurrences(name))
         cnt = rng.choice([0, 1, 2, -1, -2, occ - 1, occ, -occ, -occ - 1])
@@ -105,7 +116,7 @@ class TGen:
         k = rng.random()
         x = rng.choice(a)
         if k < 0.25:
-            return x
+            return x if not self.sepchars else re_escape(x).replace("\\:", ":").replace("\\<", "<").replace("\\>", ">")
         if k < 0.4:
             return x[0] + ".*"
         if k < 0.5:
@@ -116,9 +127,15 @@ class TGen:
             return x.upper()
         if k < 0.8:
             return "[%s%s].*" % (a[0][0], a[-1][0])
-        if k < 0.9:
+        if k < 0.86:
             return ".*"
-        return "(%s)?%s" % (a[0], a[1 % len(a)])
+        if k < 0.93:
+            return "(?:%s|%s)" % (re_escape(x), re_escape(rng.choice(a)))     # groups spelled with ':' '<' '>' are regular expressions too
+        if k < 0.96:
+            return "(?i:%s)" % re_escape(x)
+        if k < 0.98:
+            return "(?P<n>%s).*" % re_escape(x[0])
+        return "(%s)?%s" % (re_escape(a[0]), re_escape(a[1 % len(a)]))
 
     def selector(self, m):
         rng = self.rng
@@ -237,6 +254,22 @@ class TGen:
                 return None
             vals = tuple((rng.choice(self.alpha) if col == m.index else (rng.choice(FLOATS) if k == "f" else rng.randint(-3, 6) if k == "i" else rng.choice(["u", "v", "w"]))) for _ in range(cnt))
             return ("setslice", tid, col, sel, vals)
+        if kind == "polluter":
+            return ("polluter", tuple(rng.choice(self.alpha).upper() if rng.random() < 0.5 else rng.choice(self.alpha) for _ in range(4)), self.pattern())
+        if kind == "d_select":
+            ns = rng.choice([1, 2, 2, 3])
+            # _select resolves every selector of a chain against the table itself and applies it to the view made so
+            # far, so only the first one may be a name/regex/value selector; the later ones are plain position slices
+            sels = (self.selector(m),) + tuple(("slice", rng.choice([None, 0, 1, 2]), rng.choice([None, 1, 2, 3, -1]), rng.choice([None, None, 2]))
+                                              for _ in range(ns - 1))
+            k = rng.randint(1, len(m.cols))
+            names = [c for c in rng.sample(m.cols, k) if " " not in c]
+            e = self.expr(m)
+            if e is not None and rng.random() < 0.8:
+                names.append(e)
+            if not names:
+                return None
+            return ("d_select", tid, sels, tuple(names))
         if kind == "ctor":
             spec = gen_table(rng, {"sizes": [0, 1, 2, 3, 4], "index_first": True}, self.alpha)
             return ("ctor", spec, rng.choice(["ok", "ok", "index_not_listed", "index_not_listed", "index_is_scalar", "index_absent", "ragged", "not_array"]))
@@ -341,6 +374,23 @@ class TGen:
                 _, tid, sels = op
                 idx = M[tid].select(tuple(model_sel(s) for s in sels))
                 self._add(M[tid].take_rows(idx), self.kinds[tid])
+            elif kind == "d_select":
+                _, tid, sels, names = op
+                m = M[tid]
+                sub = m.take_rows(m.select(tuple(model_sel(s) for s in sels)))
+                texts, values = [], {}
+                for nm in names:
+                    if isinstance(nm, tuple):
+                        tx = expr_text(nm)
+                        values[tx] = [eval_expr(nm, {c: sub.data[c][i] for c in sub.cols}) for i in range(sub.n())]
+                        texts.append(tx)
+                    else:
+                        texts.append(nm)
+                if len(set(texts)) == len(texts):
+                    kd = dict(self.kinds[tid])
+                    for tx in values:
+                        kd[tx] = "f"
+                    self._add(sub.take_cols(texts, values), kd)
             elif kind == "d_copy":
                 self._add(M[op[1]].copy(), self.kinds[op[1]])
             elif kind == "d_mul":
